@@ -68,7 +68,7 @@ def spelling(draw, segs: list[str], root_name: str = "capsule", hostile=True):
             parts.insert(pos, ".")
             labels.append("dot")
         elif op == "updown":
-            parts[pos:pos] = [draw(st.sampled_from(["zz", "public", "private", "sub"])), ".."]
+            parts[pos:pos] = [draw(st.sampled_from(["zz", "public", "private", "sub", "%ff", "%c0%af", "%E2%28", "%zz", "a%00b"])), ".."]
             labels.append("dotdot")
         elif op == "dupslash":
             parts.insert(pos, "")
